@@ -565,3 +565,15 @@ Definition check_cmrf_st (acc : bool) (pd dim : nat) (b : bc) (s : Q) (x loc : l
   | None, None => true
   | _, _ => false
   end.
+
+(* which branch of GMRF.__init__ computes the log-determinant: `if self.dim > config.MAX_DIM_INV` -- the regularised
+   Cholesky factor (finding logdet:dim-above-MAX_DIM_INV) strictly ABOVE the threshold, the spectrum at and below it;
+   zero boundary conditions have no such branch *)
+Definition gmrf_uses_regularised (b : bc) (dim max_dim_inv : nat) : bool :=
+  match b with
+  | Periodic | Neumann => (max_dim_inv <? dim)%nat
+  | _ => false
+  end.
+
+Definition check_logdet_branch (b : bc) (dim max_dim_inv : nat) (obs_regularised : bool) : bool :=
+  Bool.eqb (gmrf_uses_regularised b dim max_dim_inv) obs_regularised.
